@@ -163,16 +163,25 @@ MUTANTS = [
     {"name": "local_exists_true_for_directories", "props": ["C20"], "file": "storage_backend.py",   # = revert of 7920bb5
      "find": "        if stat.S_ISDIR(st.st_mode):\n            return path.endswith(\"/\") or path.endswith(os.sep)\n        return True",
      "repl": "        return True"},
+    {"name": "gc_strips_location_as_string_prefix", "props": ["C05"], "file": G,      # = revert of 66ad869 on the current code
+     "find": "        if (\n            first_component not in (\"data\", \"metadata\")\n            and root.startswith(\"/\")\n            and path.startswith(root + \"/\")\n        ):\n            relative = path[len(root):].lstrip(\"/\")",
+     "repl": "        if path.startswith(self.table_path):\n            relative = path[len(self.table_path):].lstrip(\"/\")"},
+    {"name": "validate_then_read_etag", "props": ["C08"], "file": M,                  # = revert of 02d4ecb on the current code
+     "find": "                            current = self._read_metadata_file(\n                                f\"{self.metadata_path}/{previous_metadata_file}\"\n                            )\n                            validated_from_hint = True",
+     "repl": "                            validated_from_hint = True",
+     "also": [("                if self.storage.supports_cas:\n                    for attempt in (0, 1):",
+               "                current = self.refresh()\n                if self.storage.supports_cas:\n                    for attempt in (0, 1):"),
+              ("                if not validated_from_hint:\n                    current = self.refresh()", "                pass")]},
     {"name": "seq_from_snapshot_count", "props": ["C15", "C01"], "file": T,
      "find": "        sequence_number = base_metadata.last_sequence_number + 1",
      "repl": "        sequence_number = len(base_metadata.snapshots) + 1"},
 ]
 
 REVERTS = [
-    ("9ca1d8a", ["C01"]), ("336ed11", ["C04"]), ("d830242", ["C04"]), ("abb63e7", ["C02"]), ("66ad869", ["C05"]),
+    ("9ca1d8a", ["C01"]), ("336ed11", ["C04"]), ("d830242", ["C04"]), ("abb63e7", ["C02"]), 
 ("dba0733", ["C07"]), ("0c9977b", ["C07"]), ("2a5d64e", ["C07"]), ("b46438b", ["C07"]),
-    ("02d4ecb", ["C08"]), ("0ad9135", ["C09"]), ("6e33d4e", ["C10"]), ("c6108cc", ["C11"]), ("e362918", ["C11"]),
-    ("e7f960c", ["C20"]), ("b4313ab", ["C04"]), ("4f0c1c6", ["C10"]), ("1c6f396", ["C19"]), 
+     ("0ad9135", ["C09"]), ("6e33d4e", ["C10"]), ("c6108cc", ["C11"]), ("e362918", ["C11"]),
+    ("e7f960c", ["C20"]), ("da6a982+b4313ab", ["C04"]), ("4f0c1c6", ["C10"]), ("1c6f396", ["C19"]), 
     ("fd90d27", ["C04"]), ("1392b8b", ["C05", "C06"]), ("eb1285e", ["C05"]), ("ed11f52", ["C14", "C07"]), ("da6a982", ["C14", "C07"]),
     ("fc4462d", ["C15"]), ("38d48b4", ["C14"]), ("c16fd62", ["C04"]), ("0034e06", ["C04"]), ("470f494", ["C08"]),
 ]
@@ -199,6 +208,11 @@ def apply_mutant(d: str, m: dict) -> None:
 
 
 def apply_revert(d: str, commit: str) -> None:
+    if "+" in commit:
+        # several commits, reverted in the order given (newest first): a later fix that masks an earlier one
+        for c in commit.split("+"):
+            apply_revert(d, c)
+        return
     diff = subprocess.run(["git", "-C", "/repo", "show", "--format=", commit, "--", "src"], capture_output=True, text=True,
                           check=True).stdout
     r = subprocess.run(["patch", "-R", "-p1", "-d", d, "--no-backup-if-mismatch"], input=diff, capture_output=True, text=True)
